@@ -343,6 +343,26 @@ fn scaling(thorough: bool) -> Stats {
                     st.count("scaling-family-sequences");
                 }
             }
+            // an element wrapped in n parentheses (depth n), at the start, in the middle and at the end of a
+            // short sequence of each separator pattern, also nested inside an outer group
+            fn wrap(mut e: Elem, depth: usize) -> Elem {
+                for _ in 0..depth {
+                    e = Elem::Group(Seq { seps: vec![], elems: vec![e] });
+                }
+                e
+            }
+            for seps in [vec![false, false], vec![true, true], vec![false, true], vec![true, false]] {
+                for k in 0..3 {
+                    let mut elems = vec![Elem::Assign("a", 1), Elem::Lit(2), Elem::Read("a")];
+                    elems[k] = wrap(if k == 0 { Elem::Assign("a", 5) } else { Elem::Lit(9) }, n);
+                    let s = Seq { seps: seps.clone(), elems };
+                    check(&s, false, &mut st);
+                    check(&s, true, &mut st);
+                    let outer = Seq { seps: vec![false], elems: vec![Elem::Group(s), Elem::Lit(3)] };
+                    check(&outer, false, &mut st);
+                    st.count("scaling-family-sequences");
+                }
+            }
         }
         st
     })
